@@ -34,6 +34,11 @@
 //!   noflags bit 0 --no-color, bit 1 --no-interactive
 //!   lim     0 | N: RLIMIT_FSIZE = N bytes for the tool (SIGXFSZ ignored): every regular file fails with EFBIG after N bytes
 //!   ldi     1: --use-local-debuginfo
+//!   argv    (17th token, optional; lim and ldi must then be given) A<tag>:<tok>,<tok>,..  the COMPLETE argument vector of the
+//!           tool, replacing the one built from the fields above; each token percent-encoded ("%_" = the empty string, "!" in
+//!           place of the list = no argument at all); the placeholders @D @O @C @L @S stand for the minidump, the three sink
+//!           paths and testdata/symbols.  <tag> is the generator's note for the oracle (S: spells the same command as the
+//!           fields; N: a near miss of it - rejected, or taken for it; R: not a command line of the tool; H: help / version)
 //! answer:
 //!   lib=<R|P|O|X|?> cpu=<x86|amd64|arm64|other|-> exit=<n|sig:n|timeout> stdout=<sink> out=<sink> cy=<sink> log=<-|len> stderr=<len>
 //!   pre=<out>/<cy>/<log> (length of each path's content before the run, '-' absent) kept=<-|sinks whose content is byte for
@@ -768,6 +773,32 @@ fn run(st: &mut State, line: &str) -> String {
     let noflags = t.u64();
     let lim: u64 = t.opt().map(|x| x.parse().expect("lim")).unwrap_or(0);
     let ldi = t.opt().map(|x| x == "1").unwrap_or(false);
+    let raw_argv: Option<Vec<String>> = t.opt().filter(|x| x.starts_with('A')).map(|x| {
+        let body = &x[x.find(':').expect("A<tag>:") + 1..];
+        if body == "!" {
+            return vec![];
+        }
+        body.split(',')
+            .map(|tok| {
+                if tok == "%_" {
+                    return String::new();
+                }
+                let b = tok.as_bytes();
+                let mut out: Vec<u8> = vec![];
+                let mut i = 0;
+                while i < b.len() {
+                    if b[i] == b'%' && i + 2 < b.len() {
+                        out.push(u8::from_str_radix(&tok[i + 1..i + 3], 16).expect("percent escape"));
+                        i += 3;
+                    } else {
+                        out.push(b[i]);
+                        i += 1;
+                    }
+                }
+                String::from_utf8(out).expect("utf-8 argv token")
+            })
+            .collect()
+    });
     st.n += 1;
     let tmp = st.tmp.path().to_path_buf();
 
@@ -968,6 +999,14 @@ fn run(st: &mut State, line: &str) -> String {
 
     // ---- the command line, as a function of the three sink paths (the reference run for the log file uses fresh ones)
     let build_args = |out_p: &Path, cy_p: &Path, log_p: &Path| -> Vec<String> {
+        if let Some(raw) = &raw_argv {
+            return raw
+                .iter()
+                .map(|tok| {
+                    tok.replace("@D", &s(&in_path)).replace("@O", &s(out_p)).replace("@C", &s(cy_p)).replace("@L", &s(log_p)).replace("@S", &s(&symbols))
+                })
+                .collect();
+        }
         let mut args: Vec<String> = vec![];
         for m in modes.chars() {
             match m {
